@@ -56,7 +56,7 @@ struct thr {
   volatile int tid;
   pthread_t pt;
 };
-enum { K_PARKED = 0, K_SPINNER = 1, K_SLEEPER = 2, K_NULLSP = 3, K_EXITER = 4, K_FDCHURN = 5, K_ODDSP = 6 };
+enum { K_PARKED = 0, K_SPINNER = 1, K_SLEEPER = 2, K_NULLSP = 3, K_EXITER = 4, K_FDCHURN = 5, K_ODDSP = 6, K_MAPCHURN = 7 };
 
 static struct thr thrs[MAX_THREADS] __attribute__((aligned(16)));
 static int nthr;
@@ -250,6 +250,19 @@ static void *thread_main(void *arg) {
       shm->heartbeat[t->id]++;
     }
   }
+  case K_MAPCHURN: {
+    // keeps changing the memory map: a region of 1..8 pages appears, is touched and disappears
+    for (unsigned n = 0;; n++) {
+      size_t len = (1 + n % 8) * 4096ul;
+      char *p = mmap(NULL, len, PROT_READ | PROT_WRITE, MAP_PRIVATE | MAP_ANONYMOUS, -1, 0);
+      if (p != MAP_FAILED) {
+        p[0] = (char)n;
+        if (n % 3 == 0) mprotect(p, 4096, PROT_READ);
+        munmap(p, len);
+      }
+      shm->heartbeat[t->id]++;
+    }
+  }
   case K_SLEEPER:
   default:
     for (;;) {
@@ -397,6 +410,14 @@ int main(int argc, char **argv) {
       if (!strcmp(kind, "anon")) {
         // remember desired prot in the low bits of len? keep simple: apply later via 'protect'
       }
+    } else if (!strcmp(cmd, "stripes")) {
+      // stripes addr count : 2*count pages, every other one read-only => 2*count lines in the memory map
+      unsigned long addr, count;
+      sscanf(line, "%*s %lx %lu", &addr, &count);
+      char *p = mmap((void *)addr, count * 2 * 4096ul, PROT_READ | PROT_WRITE, MAP_PRIVATE | MAP_ANONYMOUS | MAP_NORESERVE | MAP_FIXED_NOREPLACE, -1, 0);
+      if (p == MAP_FAILED) die("mmap stripes");
+      for (unsigned long i = 0; i < count; i++)
+        if (mprotect(p + (2 * i + 1) * 4096ul, 4096, PROT_READ) != 0) die("mprotect stripes");
     } else if (!strcmp(cmd, "poke")) {
       unsigned long addr, val;
       sscanf(line, "%*s %lx %lx", &addr, &val);
